@@ -19,6 +19,7 @@ import (
 	"crypto/ecdsa"
 	"crypto/elliptic"
 	crand "crypto/rand"
+	"encoding/base64"
 	"encoding/hex"
 	"encoding/json"
 	"errors"
@@ -241,6 +242,29 @@ func TestVerifC03(t *testing.T) {
 		}
 		return "K?"
 	}
+	// canaries: the secret scalar of every key in decimal / hex / base64 forms and the PEM body: must not show up in what the
+	// command prints or returns as error
+	var canaries []string
+	for i, k := range append(append([]*ecdsa.PrivateKey{}, keys...), preKeys...) {
+		d := k.D.Bytes()
+		canaries = append(canaries, k.D.String(), hex.EncodeToString(d), strings.ToUpper(hex.EncodeToString(d)), base64.RawURLEncoding.EncodeToString(d), base64.StdEncoding.EncodeToString(d))
+		if i < len(pems) {
+			ls := strings.Split(pems[i], "\n")
+			if len(ls) > 2 {
+				canaries = append(canaries, ls[1])
+			}
+		}
+	}
+	leak := func(texts ...string) string {
+		for _, t := range texts {
+			for _, c := range canaries {
+				if len(c) > 16 && strings.Contains(t, c) {
+					return " KEY-MATERIAL-IN-OUTPUT"
+				}
+			}
+		}
+		return ""
+	}
 	stub := &c03VaultStub{}
 	srv := httptest.NewServer(stub)
 	defer srv.Close()
@@ -313,7 +337,7 @@ func TestVerifC03(t *testing.T) {
 				for _, n := range tgt.order {
 					ents = append(ents, hex.EncodeToString([]byte(n))+":"+keyID(tgt.m[n]))
 				}
-				return "fsexport keys=[" + strings.Join(c03Hexes(got), ",") + "] err=" + errText(err, dir) + " target=[" + strings.Join(ents, ",") + "]"
+				return "fsexport keys=[" + strings.Join(c03Hexes(got), ",") + "] err=" + errText(err, dir) + " target=[" + strings.Join(ents, ",") + "]" + leak(errText(err, dir), strings.Join(got, "\n"))
 			case "fs2vault":
 				dataDir := filepath.Join(dir+"-data")
 				defer os.RemoveAll(dataDir)
@@ -345,7 +369,7 @@ func TestVerifC03(t *testing.T) {
 				stub.mu.Lock()
 				puts := append([]string(nil), stub.puts...)
 				stub.mu.Unlock()
-				return "fs2vault keys=[" + strings.Join(printed, ",") + "] err=" + errText(err, dir) + " puts=[" + strings.Join(puts, ",") + "]"
+				return "fs2vault keys=[" + strings.Join(printed, ",") + "] err=" + errText(err, dir) + " puts=[" + strings.Join(puts, ",") + "]" + leak(errText(err, dir), outBuf.String())
 			}
 			return kind + " unknown-op"
 		}()
